@@ -194,3 +194,94 @@ def run_family(pool, jobs, judge, chunk=12):
         merge(stats, st)
         stats["per"].extend(st["per"])
     return stats
+
+
+def stateful_task(arg):
+    """Stateful (unbounded-deviation) exploration of one job: depth-first over ALL choice sequences, pruned by the
+    abstract state recorded at every decision point (two prefixes reaching the same abstract state are explored once).
+    Sound for violations (every reported one is a real execution); complete up to the precision of the abstraction."""
+    job, judge, cap = dict(arg["job"]), arg["judge"], arg.get("cap", 20000)
+    job["digest"] = True
+    stats = _empty_stats()
+    stats.update(abstract_states=0, pruned=0)
+    visited = set()
+    t0 = time.time()
+    import sys
+
+    sys.setrecursionlimit(20000)
+
+    def rec(prefix):
+        if stats["execs"] >= cap:
+            stats["cap_hit"] = True
+            return
+        res = _run(job, prefix)
+        verdict = _judge(judge, job, res)
+        _account(stats, job, prefix, res, verdict)
+        ch = [c for _, c in res["points"]]
+        dg = res["digests"]
+        for i in range(len(prefix), len(res["points"])):
+            if dg[i] in visited:
+                stats["pruned"] += 1
+                break
+            visited.add(dg[i])
+            for alt in range(1, res["points"][i][0]):
+                rec(ch[:i] + [alt])
+
+    rec(list(arg.get("prefix", [])))
+    stats["abstract_states"] = len(visited)
+    stats["wall"] = time.time() - t0
+    stats["sigs"] = list(stats["sigs"])
+    return dict(key=arg["key"], stats=stats)
+
+
+def explore_stateful(pool, jobs, judge, cap=20000):
+    out = {}
+    for r in pool.imap("vf.explore", "stateful_task", [dict(key=k, job=j, judge=judge, cap=cap) for k, j in jobs.items()]):
+        st = r["stats"]
+        st["sigs"] = set(st["sigs"])
+        out[r["key"]] = st
+    return out
+
+
+def prefix_task(arg):
+    """Worker: execute one choice prefix (then default choices) with abstract-state digests; judged."""
+    job = dict(arg["job"])
+    job["digest"] = True
+    res = _run(job, arg["prefix"])
+    verdict = _judge(arg["judge"], job, res)
+    return dict(key=arg["key"], prefix=arg["prefix"], points=res["points"], digests=res["digests"], verdict=verdict, n_steps=res["n_steps"], sig=res["sig"],
+                deadlock=res["deadlock"] is not None, n_points=res["n_points"])
+
+
+def explore_stateful_bfs(pool, jobs, judge, cap=30000):
+    """Level-synchronous, pruned exploration of ALL schedules of every job (no deviation bound): an alternative is expanded
+    only at decision points whose abstract state (thread program counters + shared lifecycle state) has not been seen.
+    Returns {key: stats}; stats['cap_hit'] when the execution cap stopped the search."""
+    out = {k: dict(_empty_stats(), abstract_states=0, pruned=0, levels=0) for k in jobs}
+    visited = {k: set() for k in jobs}
+    frontier = [dict(key=k, job=jobs[k], judge=judge, prefix=[]) for k in jobs]
+    while frontier:
+        nxt = []
+        for r in pool.imap("vf.explore", "prefix_task", frontier):
+            k = r["key"]
+            st = out[k]
+            fake = dict(n_points=r["n_points"], n_steps=r["n_steps"], sig=r["sig"], deadlock=({} if r["deadlock"] else None))
+            _account(st, jobs[k], r["prefix"], fake, r["verdict"])
+            ch = [c for _, c in r["points"]]
+            for i in range(len(r["prefix"]), len(r["points"])):
+                d = r["digests"][i]
+                if d in visited[k]:
+                    st["pruned"] += 1
+                    break
+                visited[k].add(d)
+                if st["execs"] + sum(1 for t in nxt if t["key"] == k) < cap:
+                    for alt in range(1, r["points"][i][0]):
+                        nxt.append(dict(key=k, job=jobs[k], judge=judge, prefix=ch[:i] + [alt]))
+                else:
+                    st["cap_hit"] = True
+        for k in jobs:
+            out[k]["levels"] += 1 if any(t["key"] == k for t in nxt) else 0
+        frontier = nxt
+    for k in jobs:
+        out[k]["abstract_states"] = len(visited[k])
+    return out
